@@ -88,6 +88,18 @@ def gate_facts(conds):
     return fs
 
 
+def final_value(leaf, ef):
+    """value of a path whose leaf is a variable: its last definition / assignment on the path"""
+    if re.fullmatch(r'\w+', leaf):
+        for e in reversed(ef):
+            m = re.match(r'%s (:=|=) (.*)$' % re.escape(leaf), e)
+            if m:
+                return m.group(2)
+            if re.match(r'%s \w+Assign ' % re.escape(leaf), e):
+                return leaf
+    return leaf
+
+
 def nonnull(leaf):
     if leaf in ('NULL', '(NULL, NULL)', 'PANIC'):
         return False
@@ -158,11 +170,16 @@ def roles(fn):
     return names
 
 
-def rtbl(fn):
-    """function-level decision table with role names"""
+def rtbl(fn, versions=False):
+    """function-level decision table with role names; the accumulators are read only after
+    the single pass that fills them, so their version marks are dropped unless asked for"""
     env = N.self_env(fn)
     env['__names__'] = roles(fn)
-    return dtree.table(fn.hir, env), env
+    t = dtree.table(fn.hir, env)
+    if not versions:
+        u = dtree.unprime
+        t = dtree.Table((frozenset(u(c) for c in cs), u(l), tuple(u(e) for e in ef)) for cs, l, ef in t)
+    return t, env
 
 
 def check_gates(run, F):
@@ -200,7 +217,7 @@ def check_gates(run, F):
                         break
                 if var == 'NULL':
                     continue
-            elif not nonnull(leaf):
+            elif not nonnull(final_value(leaf, ef)):
                 continue
             rows += 1
             fs = gate_facts(cs) + [L(cnt)]
@@ -214,7 +231,7 @@ def check_gates(run, F):
         if any(b['name'] == 'min_periods' for p in fn.params for b in _pat_binds(p)):
             bad2 = []
             for cs, leaf, ef in t:
-                if not nonnull(leaf) or (name.endswith('vmean_var') and leaf.endswith(', NULL)')):
+                if not nonnull(final_value(leaf, ef)) or (name.endswith('vmean_var') and leaf.endswith(', NULL)')):
                     continue
                 fs = gate_facts(cs) + [L(cnt), L('min_periods')]
                 if not lia.entails_ge0(fs, sub(L(cnt), L('min_periods'))):
@@ -289,7 +306,7 @@ def check_first(run, F):
         idxvars = {m.group(1) for cs, l, ef in t for e in ef
                    for m in [re.match(r'(\w+) = Some\((\w+)\)$', e)] if m and
                    any(e2 == '%s AddAssign 1' % m.group(2) for e2 in ef)}
-        run.ob('AGG.first', fn, '%s returns the cached index' % fn.name, len(idxvars) == 1 and tail in idxvars,
+        run.ob('AGG.first', fn, '%s returns the cached index' % fn.name, len(idxvars) == 1 and dtree.unprime(tail or '') in idxvars,
                fn.loc(), 'returns %s (index cache %s)' % (tail, sorted(idxvars)))
     return n
 
@@ -338,7 +355,7 @@ def check_folds(run, F):
                     cvar = [m.group(1) for cs_, l_, ef_ in t for e in ef_
                             for m in [re.match(r'(\w+) AddAssign 1$', e)] if m]
                     ok2 = len(set(cvar)) == 1 and ('%s := 0' % cvar[0]) in ef and \
-                        (leaf == cvar[0] or leaf.startswith('(%s, ' % cvar[0]))
+                        (leaf == cvar[0] + "'" or leaf.startswith("(%s', " % cvar[0]))
                     det += '; function table %s' % dtree.show(ft)
                 ok = ok and ok2
         run.ob('NULL.fold', fn, name, ok, fn.loc(), det)
@@ -359,7 +376,7 @@ def check_tables(run, F):
         run.ob('AGG.table', fn, fn.name, leaf == w, fn.loc(), 'body = %s' % leaf)
     fn = F.one('AggValidBasic::count_none')
     t = N.tbl(fn)
-    w = N.T(([], 'n', ['n := 0', 'self.into_iter().for_each(|a0| if !VALID(a0) { n AddAssign 1; })']))
+    w = N.T(([], "n'", ['n := 0', 'self.into_iter().for_each(|a0| if !VALID(a0) { n AddAssign 1; })']))
     run.ob('AGG.table', fn, 'count_none', t == w, fn.loc(), dtree.show(t))
     fn = F.one('AggValidBasic::vcount_value')
     t = N.tbl(fn)
